@@ -68,6 +68,33 @@ def be_width(callee):
     return None
 
 
+def array_place(t):
+    """(array term, lo, hi) when t is `A[i]` / `A[a..b]` (literal bounds) of a local `[v; N]` array A"""
+    if not (isinstance(t, tuple) and t[0] == "index" and isinstance(t[1], tuple) and t[1][0] == "repeat"):
+        return None
+    A, i = t[1], t[2]
+    n = A[2]
+    if i[0] == "lit" and isinstance(i[1], int):
+        return (A, i[1], i[1] + 1)
+    lit = lambda x: x[1] if x is not None and x[0] == "lit" and isinstance(x[1], int) else None
+    if i[0] == "struct":
+        f = dict(i[2])
+        name = i[1].split("::")[-1]
+        lo = lit(f.get("start")) if "start" in f else 0
+        hi = lit(f.get("end")) if "end" in f else n
+        if name in ("RangeInclusive", "RangeToInclusive") and hi is not None:
+            hi += 1
+        if name == "RangeFull":
+            lo, hi = 0, n
+        if lo is None or hi is None:
+            return (A, None, None)
+        return (A, lo, hi)
+    if i[0] == "call" and i[1].endswith("RangeInclusive::<Idx>::new") and len(i[2]) == 2:
+        lo, hi = lit(i[2][0]), lit(i[2][1])
+        return (A, lo, None if hi is None else hi + 1) if lo is not None else (A, None, None)
+    return (A, None, None)
+
+
 def be_elem(t):
     """(X, n, i) if t is byte i of the n-byte array X.to_be_bytes()"""
     if t[0] == "sproj" and isinstance(t[2], int):
@@ -129,6 +156,8 @@ class Chain2:
         return False
 
     def is_effect(self, callee, args, node, st):
+        if args and array_place(args[0]) is not None and (callee == "<assign>" or (callee or "").endswith("::copy_from_slice")):
+            return True       # a write into a local `[v; N]` array that may later be appended as a whole
         if not self.touches(args):
             return False
         if callee in ("<closure>", "<assign>", "<indirect>"):
@@ -157,16 +186,69 @@ class Chain2:
         return None
 
     # ---- segments
+    def array_segments(self, A, writes, e):
+        """the bytes of a local `[v; N]` array after the writes made to it on this path, as segments; None when a write is not
+        at literal positions, overlaps another, or the source's length is not known to equal the region's"""
+        n = A[2]
+        cells = [None] * n
+        for w in writes:
+            pl = array_place(w.args[0])
+            if w.loops:
+                return None
+            if pl is None or pl[1] is None or pl[2] is None or not (0 <= pl[1] <= pl[2] <= n):
+                return None
+            lo, hi = pl[1], pl[2]
+            if any(c is not None for c in cells[lo:hi]):
+                return None
+            if w.kind == "assign":
+                if hi - lo != 1:
+                    return None
+                cells[lo] = ("byte", w.args[1], 1)
+            else:
+                src = norm(w.args[1])
+                bw = be_width(src[1]) if src[0] == "call" else None
+                if bw is not None and len(src[2]) == 1:
+                    if bw != hi - lo:
+                        return None
+                    cells[lo] = ("be", src[2][0], bw)
+                else:
+                    ty = term_type(self.F, self.fn, src) or ""
+                    mm = re.search(r"\[u8; (\d+)\]$", ty)
+                    if not mm or int(mm.group(1)) != hi - lo:
+                        return None
+                    cells[lo] = ("chunk", src, hi - lo)
+                for j in range(lo + 1, hi):
+                    cells[j] = ("cont",)
+        out = []
+        for c in cells:
+            if c is None:
+                out.append(Seg("byte", A[1], e))
+            elif c[0] == "cont":
+                continue
+            elif c[0] == "be":
+                out.append(Seg("be", c[1], e, n=c[2]))
+            else:
+                out.append(Seg(c[0], c[1], e))
+        return out
+
     def segments(self, p):
         raw = []
+        arrays = {}
         for e in p.effects:
+            pl = array_place(e.args[0]) if e.args else None
+            if pl is not None and not self.touches(e.args):
+                arrays.setdefault(pl[0], []).append(e)
+                continue
             m = method_of(e.callee)
             if e.kind == "call" and e.args and self.is_buf(e.args[0]) and m == "push" and len(e.args) == 2:
                 raw.append(Seg("byte", e.args[1], e))
             elif e.kind == "call" and e.args and self.is_buf(e.args[0]) and m == "extend_from_slice" and len(e.args) == 2:
                 d = norm(e.args[1])
                 w = be_width(d[1]) if d[0] == "call" else None
-                if d[0] == "array":
+                built = self.array_segments(d, arrays.get(d, []), e) if d[0] == "repeat" else None
+                if built is not None:
+                    raw.extend(built)
+                elif d[0] == "array":
                     for x in d[1]:
                         raw.append(Seg("byte", x, e))
                     if not d[1]:
@@ -305,6 +387,8 @@ class Chain2:
             segs = self.segments(p)
             failed = None
             for i, e in enumerate(p.effects):
+                if e.args and array_place(e.args[0]) is not None and not self.touches(e.args):
+                    continue      # a write into a local array: accounted for where the array is appended (segments)
                 sites[e.node.get("sp")] = e
                 m = method_of(e.callee)
                 d = S.show(e.args[1])[:70] if len(e.args) > 1 else m
